@@ -183,6 +183,29 @@ def reduce_sqrt(p, pure_args):
     return p
 
 
+def rebuild(p, mapping, pure_args, out_args):
+    """substitute symbols (also inside the arguments of function symbols, recursively); the function symbols of the
+    result are entered into out_args."""
+    res = Poly()
+    for k, v in p.t.items():
+        term = Poly.const(v)
+        for s, e in k:
+            if s in mapping:
+                fac = mapping[s]
+            elif s in pure_args:
+                nm, args = pure_args[s]
+                nargs = [rebuild(a, mapping, pure_args, out_args) if isinstance(a, Poly) else a for a in args]
+                key = '%s(%s)' % (nm, ', '.join(a.show() for a in nargs))
+                out_args[key] = (nm, nargs)
+                fac = Poly.sym(key)
+            else:
+                fac = Poly.sym(s)
+            for _ in range(e):
+                term = term * fac
+        res = res + term
+    return res
+
+
 def clear_inverses(p, pure_args):
     """multiply p by the arguments of its inv(..) symbols until none is left (p == 0 is preserved where they are
     non-zero)."""
@@ -246,6 +269,9 @@ PURE = {'sqrt', 'sin', 'cos', 'tan', 'atan', 'atan2', 'asin', 'acos', 'exp', 'lo
 # odd functions with g(b) of the sign of b (sin only on |b| <= pi, which is where the library applies copysign to it)
 ODD_SIGN_PRESERVING = {'sin', 'tan', 'sinh', 'tanh', 'asin', 'atan', 'asinh', 'atanh', 'cbrt'}
 
+ODD_FUNCTIONS = {'sin', 'tan', 'sinh', 'tanh', 'asin', 'atan', 'asinh', 'atanh', 'cbrt', 'inv', 'sgn'}
+EVEN_FUNCTIONS = {'cos', 'cosh', 'abs'}
+
 TRANSPARENT = ('ParenExpr', 'ExprWithCleanups', 'MaterializeTemporaryExpr', 'CXXBindTemporaryExpr', 'ConstantExpr',
                'SubstNonTypeTemplateParmExpr', 'ImplicitCastExpr', 'CXXFunctionalCastExpr', 'CStyleCastExpr',
                'CXXStaticCastExpr')
@@ -278,6 +304,7 @@ class SymEval:
         self.inline = inline          # None = every callee with a body; else set of qualified names
         self.noinline = set(noinline)
         self.round_products = False   # a product of two non-constants (outside fma) is a fresh "rounded" symbol
+        self.copysign_model = 'fork'  # or 'sgn': copysign(a, b) = |a| sgn(b) as symbols
         self.preset_outs = {}         # name of a variable handed to an uninterpreted call by address -> constant
 
     # ------------------------------------------------------------------ driver
@@ -630,6 +657,14 @@ class SymEval:
         """the library is deterministic: one symbol per function and argument tuple, named after them."""
         if any(not isinstance(a, Poly) for a in args):
             return Poly.sym(self.newsym(name))
+        # parity: f(-z) = -f(z) for odd f, f(-z) = f(z) for even f; atan2 is odd in its first argument
+        if args and (name in ODD_FUNCTIONS or name in EVEN_FUNCTIONS or name == 'atan2') and not args[0].is_const() \
+                and args[0].t and sorted(args[0].t.items())[0][1] < 0:
+            flipped = self.pure(name, [-args[0]] + list(args[1:]))
+            return flipped if name in EVEN_FUNCTIONS else -flipped
+        if name == 'hypot':
+            args = [(-a if (a.t and not a.is_const() and sorted(a.t.items())[0][1] < 0) else
+                     (Poly.const(abs(a.const_value())) if a.is_const() else a)) for a in args]
         key = '%s(%s)' % (name, ', '.join(a.show() for a in args))
         self.pure_cache[key] = Poly.sym(key)
         self.pure_args[key] = (name, list(args))
@@ -724,6 +759,10 @@ class SymEval:
             if name == 'copysign' and len(args) == 2:
                 a = self.ev(fr, args[0])
                 b = self.ev(fr, args[1])
+                if self.copysign_model == 'sgn' and isinstance(a, Poly) and isinstance(b, Poly):
+                    # |a| sgn(b), with sgn an odd symbol: keeps the dependence on b instead of forking
+                    mag = Poly.const(abs(a.const_value())) if a.is_const() else self.pure('abs', [a])
+                    return mag * self.pure('sgn', [b])
                 if isinstance(a, Poly) and isinstance(b, Poly) and len(a.t) == 1:
                     # copysign(g(b), b) with g odd and sign preserving on the range in question is g(b)
                     (k, v), = a.t.items()
